@@ -90,3 +90,9 @@ Proof. repeat split; vm_compute; reflexivity. Qed.
        conversion exactly for format 1 when lib.plist exists *)
 Lemma anchor_version : extracted_version_set = true.
 Proof. reflexivity. Qed.
+
+(** 9. request handling of Font::load_impl (checked textually by the extractor: lib and
+       features.fea read iff requested and present, the lib data step independent of the
+       request, Font::load = load_requested_data(all())) and the key removed from the lib *)
+Lemma anchor_object_libs_key : extracted_object_libs_key = PUBLIC_OBJECT_LIBS_KEY.
+Proof. reflexivity. Qed.
